@@ -1,5 +1,5 @@
 """Contracts: the two state machines (C06, C07, C08, C19, C22, C24)."""
-from h2vc.spec import contract, spec_module
+from h2vc.spec import contract, spec_module, modular
 import os
 spec_module(os.path.join(os.path.dirname(__file__), 'spec_fsm.py'))
 
@@ -51,9 +51,11 @@ contract(SM + '.process_input', props=['C06'],
     canary='self.state == old(self.state) and (result is None or len(result) == 0)')
 
 CM = 'h2.connection.H2ConnectionStateMachine'
+modular(CM + '.process_input')
 contract(CM + '.process_input', props=['C19', 'C08'],
     args={'input_': 'enum:ConnectionInputs'},
-    setup=concretize_state_and_input,
+    setup=concretize_state_and_input, result='list',
+    modifies=['field|self.state|enum:ConnectionState'],
     let={'st': 'self.state.value', 'inp': 'input_.value'},
     ensures=[('accepted', 'conn_accepts(st, inp)'),
              ('next-state', 'self.state.value == conn_next(st, inp)'),
